@@ -186,3 +186,9 @@ def run(ctx):
     for kind in AC_.ALL:
         for n_ in ("call_fn_unary", "call_fn_binary"):
             ctx.guarded(r, AK_.check_call_helper, kind, n_)
+    # "a function's variable map agrees between the function and every tape made from it" also after simplification:
+    # the evaluators bind row i of the *reported* map, the simplified tape's Input ops keep the parent's rows
+    from .. import simplify as S_
+
+    r = ctx.rule("R6", "a simplified function reports its parent's variable map (recycled storage never contributes one)", 6)
+    ctx.guarded(r, S_.r_tail)
